@@ -36,6 +36,10 @@ def describe(atoms):
     if EXCEPTION_DOWN <= atoms:
         parts.append('Exception and its subclasses')
         atoms -= EXCEPTION_DOWN
+    if len(atoms) > 12 and atoms <= EXCEPTION_DOWN:
+        missing = sorted(c.__name__ for c in EXCEPTION_DOWN - atoms
+                         if not any(o is not c and issubclass(c, o) for o in EXCEPTION_DOWN - atoms))
+        return 'every Exception subclass except ' + ', '.join(missing) + ' (and their subclasses)'
     for c in sorted(atoms, key=lambda c: c.__name__):
         if c is BaseException:
             parts.append('other direct BaseException subclasses')
